@@ -166,13 +166,50 @@ def main_transitions(rep, f, c, sink):
         st = [e for e in p.conds() if e[1][0] == 'variant' and e[1][1] == ('fld', ('deref', SELF), 'life_cycle')]
         if p.end[0] == 'diverge' and not p.calls() and 'unreachable' in b.blocks[p.end[1]]['t']:
             continue   # the `unreachable` otherwise-edge of the match
-        if len(st) != 1:
-            rep.undecidable('C10-D1', fn, 'path does not dispatch on life_cycle exactly once', sp_str(b.blocks[p.blocks[-1]]['tsp']), c)
+        if len(st) < 1:
+            rep.undecidable('C10-D1', fn, 'path does not dispatch on life_cycle', sp_str(b.blocks[p.blocks[-1]]['tsp']), c)
             continue
-        states = st[0][2] if isinstance(st[0][2], tuple) else (st[0][2],)
+        # an arm shared by several states (`A | B => ..`) may look at the state again inside: the path stands for the states that
+        # satisfy all of its matches
+        states = None
+        for e_ in st:
+            labs_ = set(e_[2] if isinstance(e_[2], tuple) else (e_[2],))
+            states = labs_ if states is None else (states & labs_)
+        # `self.life_cycle == X` / `!= X` inside a shared arm narrows the states the same way
+        lc_adt = f.adts.get('DecoderLifeCycle')
+        lc_eq = []
+        for e_ in p.conds():
+            ce_ = e_[1]
+            if ce_[0] == 'call' and (ce_[1] or '').endswith(('::eq', '::ne')) and len(ce_[2]) == 2 and isinstance(e_[2], bool) and lc_adt is not None:
+                a0 = strip_ref(ce_[2][0])
+                while a0[0] in ('deref', 'ref'):
+                    a0 = strip_ref(a0[1])
+                if a0 != ('fld', ('deref', SELF), 'life_cycle'):
+                    continue
+                a1 = strip_ref(ce_[2][1])
+                while a1[0] in ('deref', 'ref'):
+                    a1 = strip_ref(a1[1])
+                k_ = None
+                if a1[0] == 'agg':
+                    k_ = variant_name(a1)
+                elif a1[0] == 'cptr' and a1[2] == 0:
+                    import json as _json
+                    tgt_ = _json.loads(a1[1])
+                    if 'mem' in tgt_ and str(tgt_['mem']) in f.mems:
+                        dv_ = int.from_bytes(f.mem_bytes(tgt_['mem']), 'little')
+                        ks_ = [v_['name'] for v_ in lc_adt['variants'] if v_['discr'] == dv_]
+                        k_ = ks_[0] if len(ks_) == 1 else None
+                if k_ is None:
+                    continue
+                lc_eq.append(e_)
+                is_k = (ce_[1].endswith('::eq')) == e_[2]
+                states = (states & {k_}) if is_k else (states - {k_})
+        if not states:
+            continue            # contradictory matches: not executable
+        states = tuple(sorted(states))
         guards = []
         for e in p.conds():
-            if e is st[0] or is_debug_cond(e):
+            if any(e is x_ for x_ in st) or any(e is x_ for x_ in lc_eq) or is_debug_cond(e):
                 continue
             ce = e[1]
             if ce[0] == 'is_empty' and strip_ref(ce[1]) == SRC:
